@@ -51,7 +51,7 @@ func c11Specs(tier string, seed int) []c11Spec {
 	// E3: two valid lines and one failing line, every position, concurrency 1..3, all interleavings
 	bound := 1
 	if tier == "thorough" {
-		bound = 2
+		bound = 3
 	}
 	e3classes := []string{"Fsoil", "Fyear", "Ftill", "Fargs"}
 	if tier == "thorough" {
@@ -83,7 +83,7 @@ func init() {
 			if t == "quick" {
 				return "8 failing-line classes x 4 positions x 4 concurrency levels (half of the grid) + 6 multi-failure batches on the real binary; 4 classes x 3 positions x 3 concurrency levels at preemption bound 1 under the scheduler; 181 latitudes x 4 dates"
 			}
-			return "8 classes x 4 positions x 4 concurrency levels + 6 multi-failure batches on the real binary; 8 classes x 3 positions x 3 concurrency levels at preemption bound 2 under the scheduler; 181 latitudes x 4 dates"
+			return "8 classes x 4 positions x 4 concurrency levels + 6 multi-failure batches on the real binary; 8 classes x 3 positions x 3 concurrency levels at preemption bound 3 under the scheduler; 181 latitudes x 4 dates"
 		},
 		Budget: func(t string) time.Duration {
 			if t == "quick" {
